@@ -485,8 +485,9 @@ pub struct Placement {
     pub name: &'static str,
     /// base address of module "m" and (styles with two modules) of module "n"
     pub mods: [u64; 2],
-    /// base address of a bystander module "z": loaded, no symbols, no function of the chain in it
-    pub bystander: Option<u64>,
+    /// base addresses of the bystander modules "z" and "y": loaded, no symbols, no function of the
+    /// chain in them
+    pub bystanders: [Option<u64>; 2],
     /// base address of the stack memory
     pub stack: u64,
     pub order: ListOrder,
@@ -498,8 +499,9 @@ pub const PLACEMENTS: u64 = 4;
 /// 2^31; amd64: 0x7ff8_0000_0000 / 0x7ffc_0000_0000, canonical; arm64: 48-bit addresses
 /// 0xffff_8000_0000 / 0xffff_f000_0000, above the 47-bit pointer-authentication default, where
 /// stripping has to keep bit 47; MIPS64: 40-bit), address-ordered. 3: "m" low like a main
-/// executable, "n", a bystander and the stack at the top as in 2, the list rotated so that the
-/// lowest module comes last (load order rather than address order).
+/// executable with a bystander next to it, "n", another bystander and the stack at the top as in
+/// 2, the list rotated so that the lowest module comes last (load order rather than address
+/// order): the highest-addressed module is neither the first nor the last entry of the list.
 pub fn placement_of(arch: Arch, placement: u64) -> Placement {
     let (exe, hi_mod, hi_stack): (u64, u64, u64) = match arch {
         Arch::X86 | Arch::Arm => (0x0040_0000, 0xf000_0000, 0xff00_0000),
@@ -509,10 +511,10 @@ pub fn placement_of(arch: Arch, placement: u64) -> Placement {
         Arch::Mips64 => (0x0055_5000_0000, 0x00ff_e000_0000, 0x00ff_ff00_0000),
     };
     match placement {
-        0 => Placement { name: "low", mods: [MOD_BASE, MOD_BASE + MOD_SIZE], bystander: None, stack: STACK_BASE, order: ListOrder::Ascending },
-        1 => Placement { name: "low, bystander below, list descending", mods: [MOD_BASE, MOD_BASE + MOD_SIZE], bystander: Some(0x3000_0000), stack: STACK_BASE, order: ListOrder::Descending },
-        2 => Placement { name: "top of address space", mods: [hi_mod, hi_mod + MOD_SIZE], bystander: None, stack: hi_stack, order: ListOrder::Ascending },
-        3 => Placement { name: "executable low, rest at top, list rotated (lowest last)", mods: [exe, hi_mod], bystander: Some(hi_mod + 0x0100_0000), stack: hi_stack, order: ListOrder::Rotated },
+        0 => Placement { name: "low", mods: [MOD_BASE, MOD_BASE + MOD_SIZE], bystanders: [None, None], stack: STACK_BASE, order: ListOrder::Ascending },
+        1 => Placement { name: "low, bystander below, list descending", mods: [MOD_BASE, MOD_BASE + MOD_SIZE], bystanders: [Some(0x3000_0000), None], stack: STACK_BASE, order: ListOrder::Descending },
+        2 => Placement { name: "top of address space", mods: [hi_mod, hi_mod + MOD_SIZE], bystanders: [None, None], stack: hi_stack, order: ListOrder::Ascending },
+        3 => Placement { name: "executable low, rest at top, list rotated (lowest last, highest inside)", mods: [exe, hi_mod], bystanders: [Some(hi_mod + 0x0100_0000), Some(exe + 0x0100_0000)], stack: hi_stack, order: ListOrder::Rotated },
         _ => panic!("harness: placement {placement} not in the menu"),
     }
 }
@@ -829,10 +831,13 @@ pub fn build(prog: &Program) -> Result<Built, Infeasible> {
         regs.push((lr, if tech(0) == Tech::Leaf { ra(0) } else { 0x0bad_beef }));
     }
     let mut modules: Vec<(String, u64, u64)> = (0..nmods).map(|k| (mod_name(k), mod_base(k), MOD_SIZE)).collect();
-    if let Some(z) = pl.bystander {
-        modules.push(("z".to_string(), z, MOD_SIZE));
+    for (name, at) in ["z", "y"].into_iter().zip(pl.bystanders) {
+        if let Some(at) = at {
+            modules.push((name.to_string(), at, MOD_SIZE));
+        }
     }
     modules.sort_by_key(|m| m.1);
+    assert!(modules.windows(2).all(|w| w[0].1 + w[0].2 <= w[1].1), "harness: modules overlap");
     match pl.order {
         ListOrder::Ascending => {}
         ListOrder::Descending => modules.reverse(),
@@ -845,7 +850,7 @@ pub fn build(prog: &Program) -> Result<Built, Infeasible> {
         assert!(b + s - 1 <= a.top(), "harness: module {n} past the end of the address space");
         assert!(b + s <= stack_base || *b >= stack_end, "harness: module {n} overlaps the stack");
         // only generated return addresses may point into a module (scanning must find nothing else)
-        assert!(n != "z" || words.iter().all(|w| *w < *b || *w >= b + s), "harness: a stack word points into the bystander module");
+        assert!(!(n == "z" || n == "y") || words.iter().all(|w| *w < *b || *w >= b + s), "harness: a stack word points into a bystander module");
     }
     if matches!(a, Arch::Arm64 | Arch::Arm64Old) {
         // documented pointer-auth strip mask: all bits up to the highest bit of
